@@ -16,7 +16,7 @@ from ..compile import World
 from ..ctx import CTX, InjectedFault, RunTooBig, py_depth
 from ..history import History, canon, canon_outcome, digest, same
 from ..rng import Streams, chance, pick, weighted
-from ..sim import apply_op, build_sim, locations, preload, readable, stack_state, watch_calls, watch_spirals
+from ..sim import apply_op, form_of, build_sim, locations, preload, readable, stack_state, watch_calls, watch_spirals
 from ..world import gen_inputs, gen_request, gen_situation, gen_world, wide_knob
 from . import Result
 from .c17 import trace_nodes_match
@@ -274,12 +274,12 @@ def execute(scn, world: World, plans: dict, res: Result, *, auto_heal: bool, rec
             if stack_mode:
                 def _do(base, do=do, plan=plan):
                     CTX.pending_base = base
-                    return apply_op(sim, world, do, (plan or {}).get("site"))
+                    return apply_op(sim, world, do, (plan or {}).get("site"), form=form_of(do, k))
 
                 out = with_stack_limit((plan or {}).get("stack"), _do)
                 depth_needed = max(0, CTX.max_depth - CTX.base_depth) if CTX.base_depth is not None else 0
             else:
-                out = apply_op(sim, world, do, (plan or {}).get("site"))
+                out = apply_op(sim, world, do, (plan or {}).get("site"), form=form_of(do, k))
             fired = list(CTX.fired)
             if stack_mode and out[0] == "exc" and isinstance(out[1], RecursionError) and (plan or {}).get("stack"):
                 fired.append(("stack", "stack_exhausted"))
